@@ -119,6 +119,14 @@ def run(prop, tier, seed, replay=None):
                 reps, other = tsan_reports(out_h)
                 for key, text in reps:
                     chk.violation(key + ":hint-hammer", text, replay_args=dict(leg=leg))
+    # (1d) use during process exit (ASan build): workers keep using zones while main runs exit()
+    if prop == "C13" and (not ra or ra.get("leg") == "exit-asan"):
+        out_e = os.path.join(chk.workdir, "exit-asan")
+        args_e = ["--mode", "exit", "--zones", zones, "--seed", str(seed), "--rounds", "200" if thorough else "24", "--workers", "4", "--case-timeout", "300"]
+        if ra.get("leg") == "exit-asan" and "case" in ra:
+            args_e += ["--only-case", str(ra["case"])]
+        res, rc = core.run_monitor(exe_a, args_e, build.san_env("asan"), out_e, timeout=3600 if thorough else 900)
+        legs.append(("exit-asan", res))
     # (1b) stress under ASan (C20's log checker does not need TSan; different timing)
     if prop == "C20" and (not ra or ra.get("leg") == "stress-asan"):
         out_a = os.path.join(chk.workdir, "stress-asan")
@@ -169,6 +177,8 @@ def run(prop, tier, seed, replay=None):
                 chk.inconclusive_because("no first-load race (>= 2 loaders in the miss window) was observed")
             if not total.stat("sched:C13.distinct_schedules"):
                 chk.inconclusive_because("no schedules enumerated")
+            if not total.stat("exit-asan:C13.exit_rounds"):
+                chk.inconclusive_because("exit leg observed nothing")
             if not total.stat("hammer-tsan:C13.hammer_lookups") or not total.stat("hammer-asan:C13.hammer_lookups"):
                 chk.inconclusive_because("hint hammer observed nothing")
         else:
